@@ -391,6 +391,10 @@ class StmtMixin:
                 sq.arr = arr
                 sq.wrap = self.specns.get(wrapname) if wrapname else None
                 st.locals[nm] = sq
+        # locals whose python type changes inside the loop (e.g. int 0 that becomes a tensor) are coerced up front
+        for nm, fn in spec.get("coerce", {}).items():
+            if nm in st.locals:
+                st.locals[nm] = self.specns[fn](st.locals[nm])
         for gs in spec.get("ghost_init", []):
             c.exec_ghost(self, gs, st, fr)
         # 1. invariant holds on entry
